@@ -35,7 +35,7 @@ PROFILES = {
     "C04": dict(gen=dict(private_rate=0.4, unique_top_names=False), options=[dict()]),
     "C05": dict(gen=dict(docs=0.0, infer_returns=0.0), options=[dict()]),
     "C06": dict(gen=dict(docs=0.0), options=[dict(), dict(convert=True)]),
-    "C07": dict(gen=dict(docs=0.0, infer_returns=0.5), options=[dict()]),
+    "C07": dict(gen=dict(docs=0.0, infer_returns=0.5, ties=0.3), options=[dict()]),
     "C10": dict(gen=dict(private_rate=0.3), options=[dict(), dict(convert=True)]),
     "C11": dict(gen=dict(), options=[dict()]),
     "C12": dict(gen=dict(private_rate=0.3, ties=0.4), options=[dict()]),
